@@ -676,7 +676,7 @@ the looping list machine delivers, counting the calls of `play_tick` from 0:
  * the event of every item at the call whose number is the item's start tick — the sum of the
    durations of the items before it;
  * the synthetic `REST` of an item with on-time and off-time at start tick + on-time;
- * it is still playing before every call up to number `totalDur items`;
+ * it is still playing, and has not jumped back, before every call up to number `totalDur items`;
  * if no item is a loop point, call number `totalDur items` delivers `END` last and the machine
    has stopped after it.
 With `C07_tick_delivery_all_passes` this is `tick_delivery` of DESIGN §6 for the first pass in its
@@ -687,7 +687,8 @@ theorem C07_list_machine_times (items : List Expand.Item) :
       i.ev ∈ TickStream.lxEvents (TickStream.lxInit items) (Expand.totalDur pre)) ∧
     (∀ pre i post, items = pre ++ i :: post → i.src.on > 0 → i.src.off > 0 →
       PlayerCh.restEvent ∈ TickStream.lxEvents (TickStream.lxInit items) (Expand.totalDur pre + i.src.on)) ∧
-    (∀ τ, τ ≤ Expand.totalDur items → (TickStream.lxAfter τ (TickStream.lxInit items)).enabled = true) ∧
+    (∀ τ, τ ≤ Expand.totalDur items → (TickStream.lxAfter τ (TickStream.lxInit items)).enabled = true ∧
+      (TickStream.lxAfter τ (TickStream.lxInit items)).lastJump = -1) ∧
     ((∀ i ∈ items, i.src.kind ≠ .segno) →
       (TickStream.lxAfter (Expand.totalDur items + 1) (TickStream.lxInit items)).enabled = false ∧
       (TickStream.lxEvents (TickStream.lxInit items) (Expand.totalDur items)).getLast? = some endEvent) := by
@@ -764,7 +765,41 @@ theorem C07_export_extent_noloop_partial (d : Data) (song : Song) (tags : Vgm.Ta
     have hdis := (hstop (K + 1) (Nat.le_refl _)).1.mp h4
     rcases Nat.lt_or_ge (Expand.totalDur items) (updRun d song (K + 1) (playSong d song).1).ticks with h | h
     · exact h
-    · rw [t3 _ h] at hdis; cases hdis
+    · rw [(t3 _ h).1] at hdis; cases hdis
+
+/-- **The log covers the first pass** (partial: one channel track of any kind; any loop
+structure with the loop points at the top level).  In a successful export the last update `K`
+satisfies `totalDur items < N_{K+1}`: the export does not stop before the track has ended or has
+jumped back to its loop point — `get_loop_count()` is positive only after a jump back
+(`JumpInv`), and by `C07_list_machine_times` neither happens before call number
+`totalDur items` = the tick at which the last channel reaches the end of its first pass (for a
+looping track: loop point + loop length).  This is the lower end `F(M+L)` of the interval in which
+the schedule oracle accepts the end of a looping log; the upper end — the loop-count lemma — is not
+proved. -/
+theorem C07_export_covers_first_pass_partial (d : Data) (song : Song) (tags : Vgm.Tags) (ops : List Vgm.Op)
+    (id : Nat) (root : List Event)
+    (hexp : exportOps d song tags = .ok ops) (hsingle : SingleTrack song id root)
+    (hs : Refine.SongNoEnd song) (hr : Tree.NoEnd root) (hplain : TickStream.PlainCode song root)
+    (items : List Expand.Item) (hperf : Expand.perf song root = .ok items)
+    (hfuel : ∀ k outs, Refine.stepsCore song root k ⟨.root, 0, []⟩ = .ok (⟨.root, root.length, []⟩, outs) →
+      2 * k + 2 ≤ PlayerCh.settleFuel)
+    (hseg : ∀ k, TickStream.SegTop song root k ⟨.root, 0, []⟩) :
+    ∃ K L, ops = ctorPokes ++ (playSong d song).2 ++ L ++ [Vgm.Op.stop, Vgm.Op.writeTag tags] ∧
+      stamps 0 L = schedLog d song (playSong d song).1 (K + 1) ∧ delaySum L = 735 * K ∧
+      Expand.totalDur items < (updRun d song (K + 1) (playSong d song).1).ticks := by
+  obtain ⟨K, L, h1, h2, h3, h4, _, h6⟩ := exportOps_log d song tags ops hexp
+  have hB : 2 * 49999 + 2 ≤ PlayerCh.settleFuel := by unfold PlayerCh.settleFuel; decide
+  have hrel := TickStream.relX_init song root hs hr items hperf 49999
+    (fun k outs h => by have := hfuel k outs h; unfold PlayerCh.settleFuel at this; omega) hseg
+  have hst := single_stop_after_pass d song root id hsingle _ 49999 (TickStream.endOK_root song root) hB
+    (TickStream.plainHooks_of song root hplain) _ hrel (K + 1) h6 h4
+  refine ⟨K, L, h1, h2, h3, ?_⟩
+  rcases Nat.lt_or_ge (Expand.totalDur items) (updRun d song (K + 1) (playSong d song).1).ticks with h | h
+  · exact h
+  · obtain ⟨t1, t2⟩ := (C07_list_machine_times items).2.2.1 _ h
+    rcases hst with a | a
+    · rw [t1] at a; cases a
+    · exact absurd t2 a
 
 /-! ### non-vacuity of the whole-log theorems -/
 /-- FM channel A: `note 40 (on 2, off 1)  L  note 42 (on 2, off 2)` -/
